@@ -87,6 +87,58 @@ func runC11(c *Ctx, r *Report) {
 		})
 		r.Floor("R-C11.11", "exits of the exclusion gate", nx, 2)
 	}
+	r.Doc("R-C11.12", "a configured timeout is applied: on every path on which the timeout is not known to be non-positive, the work is started with a context derived by WithTimeout from the configured value")
+	{
+		fe := p.FuncI("entry", "Fetcher", "Fetch")
+		timeoutF := p.Field("entry", "Fetcher", "timeout")
+		tf := &Flow{P: p, Fn: fe, Entry: Facts{}}
+		tf.Node = func(n ast.Node, f Facts) {
+			walkNoLit(n, func(nd ast.Node) bool {
+				if call, ok := nd.(*ast.CallExpr); ok {
+					if cf := p.Callee(fe, call); cf != nil && cf.Pkg() != nil && cf.Pkg().Path() == "context" && (cf.Name() == "WithTimeout" || cf.Name() == "WithDeadline") && len(call.Args) == 2 {
+						if v, _ := p.FieldSel(fe, call.Args[1]); v == timeoutF {
+							f["fine"] = true // deadline in place
+						}
+					}
+				}
+				return true
+			})
+		}
+		tf.Edge = func(cond ast.Expr, taken bool, f Facts) {
+			for _, a := range splitCond(cond, taken) {
+				be, ok := ast.Unparen(a.E).(*ast.BinaryExpr)
+				if !ok {
+					continue
+				}
+				if v, _ := p.FieldSel(fe, be.X); v != timeoutF {
+					continue
+				}
+				if lit, ok := ast.Unparen(be.Y).(*ast.BasicLit); !ok || lit.Value != "0" {
+					continue
+				}
+				// the side on which the timeout is known to be <= 0
+				if (be.Op == token.GTR && !a.Truth) || (be.Op == token.LEQ && a.Truth) || (be.Op == token.EQL && a.Truth) || (be.Op == token.NEQ && !a.Truth) {
+					f["fine"] = true // no timeout configured on this path
+				}
+			}
+		}
+		tf.Run()
+		nstart := 0
+		tf.Visit(func(_ *cfgBlk, n ast.Node, before Facts) {
+			walkNoLit(n, func(nd ast.Node) bool {
+				if call, ok := nd.(*ast.CallExpr); ok {
+					if cf := p.Callee(fe, call); cf != nil && cf.Name() == "processQueue" {
+						nstart++
+						r.Check(before["fine"], "R-C11.12", r.Key("R-C11.12", fe, "start", ""), call.Pos(),
+							"the fetch starts under the configured deadline whenever a positive timeout is set",
+							"the fetch can start without a deadline although a positive timeout may be configured: a load over absent or slow blocks does not return within the timeout")
+					}
+				}
+				return true
+			})
+		})
+		r.Floor("R-C11.12", "starts of the fetch work", nstart, 1)
+	}
 	r.Doc("R-C11.10", "the fetcher's mutexes are released exactly once on every exit of the dispatcher, of every worker and of the helpers: a worker that ends while holding the process mutex stalls the dispatcher and every other worker for good")
 	{
 		nops, nex := 0, 0
